@@ -72,6 +72,12 @@ structure Entry where
   isUnsized : Bool := false
   dim2 : Bool := false
   wrongClass : Bool := false
+  /-- `A<n>`: an ill-formed attribute in front of the others -/
+  badAttr : Option Nat := none
+  externKw : Bool := false
+  groupShared : Bool := false
+  /-- `q`: a `= StaticSampler {..}` initialiser on a declarator of a static-storage declaration -/
+  staticSs : Bool := false
   deriving Repr
 
 def parseFlag (e : Entry) (f : String) : Option Entry :=
@@ -87,9 +93,16 @@ def parseFlag (e : Entry) (f : String) : Option Entry :=
   else if f == "z" then some { e with isUnsized := true }
   else if f == "m" then some { e with dim2 := true }
   else if f == "k" then some { e with wrongClass := true }
+  else if f == "e" then some { e with externKw := true }
+  else if f == "G" then some { e with groupShared := true }
+  else if f == "q" then some { e with staticSs := true }
   else if f == "Y" then some { e with extras := e.extras ++ [none] }
   else if f.startsWith "i" then (f.drop 1).toString.toNat?.map fun n => { e with langIndex := some n }
   else if f.startsWith "w" then (f.drop 1).toString.toNat?.map fun n => { e with preGroup := some n }
+  else if f.startsWith "A" then
+    match (f.drop 1).toString.toNat? with
+    | some n => if n < 10 then some { e with badAttr := some n } else none
+    | none => none
   else if f.startsWith "R" then
     match (f.drop 1).toString.splitOn "_" with
     | [i, g] =>
@@ -143,7 +156,20 @@ def Entry.regClass (e : Entry) : RegT :=
   | _ => .T
 
 /-- attributes in front of the declaration whose first declarator is `h`, in source order -/
+def badAttr : Nat → Attr
+  | 0 => .badCount "bind_group"
+  | 1 => .badCount "bind_group"
+  | 2 => .badCount "bindless"
+  | 3 => .unknown "nope"
+  | 4 => .badCount "binding"
+  | 5 => .badCount "binding"
+  | 6 => .unknown "nope"
+  | 7 => .unknown "other"
+  | 8 => .unknown "single"
+  | _ => .notConstant
+
 def declAttrs (h : Entry) : List Attr :=
+  (match h.badAttr with | some n => [badAttr n] | none => []) ++
   (if h.bindless then [Attr.bindless] else []) ++
   (match h.preGroup with | some g => [Attr.bindGroup g] | none => []) ++
   (if h.how == 'v' && h.object && (h.set.isSome || h.langIndex.isSome) then [Attr.vkBinding (h.langIndex.getD 0) h.set]
@@ -174,31 +200,36 @@ def ownAnns (e : Entry) (joined : Bool) : List Annotation :=
 def Entry.declarator (e : Entry) (joined : Bool) : Declarator Shape :=
   match e.decl with
   | .global _ ss _ len =>
-    { name := e.name, annotations := ownAnns e joined, staticSampler := ss,
+    { name := e.name, annotations := ownAnns e joined, staticSampler := ss || (e.isStatic && e.staticSs),
       shape := { len := len, peelable := !(e.isUnsized || e.dim2) } }
   | _ => { name := e.name, annotations := [], staticSampler := false, shape := { len := none, peelable := true } }
 
+/-- the storage-class keywords in front of the type of the declaration whose first declarator is `h` -/
+def Entry.mods (h : Entry) : List StorageMod :=
+  (if h.isStatic then [if h.groupShared then StorageMod.groupShared else StorageMod.static] else []) ++
+  (if h.externKw then [StorageMod.extern] else [])
+
 /-- entries in source order → root definitions; `cur` = the global-variable declaration being collected (its
-    attributes, base type, storage, declarators so far, base key) -/
-def groupEntries : List Entry → Option (List Attr × Option ObjKind × Bool × List (Declarator Shape) × (ObjKind × Bool)) →
-    List RootItem
+    attributes, base type, storage keywords, declarators so far, base key) -/
+def groupEntries : List Entry →
+    Option (List Attr × Option ObjKind × List StorageMod × List (Declarator Shape) × (ObjKind × Bool)) → List RootItem
   | [], none => []
-  | [], some (as, b, ext, ds, _) => [.globals as b ext ds]
+  | [], some (as, b, ms, ds, _) => [.globals as b ms ds]
   | e :: es, cur =>
     let flush : List RootItem := match cur with
-      | some (as, b, ext, ds, _) => [.globals as b ext ds]
+      | some (as, b, ms, ds, _) => [.globals as b ms ds]
       | none => []
     match cur, e.joined, e.base? with
-    | some (as, b, ext, ds, key), true, some key' =>
-      if key == key' then groupEntries es (some (as, b, ext, ds ++ [e.declarator true], key))
-      else flush ++ groupEntries es (some (declAttrs e, some key'.1, !key'.2, [e.declarator false], key'))
-    | _, _, some key' => flush ++ groupEntries es (some (declAttrs e, some key'.1, !key'.2, [e.declarator false], key'))
+    | some (as, b, ms, ds, key), true, some key' =>
+      if key == key' then groupEntries es (some (as, b, ms, ds ++ [e.declarator true], key))
+      else flush ++ groupEntries es (some (declAttrs e, some key'.1, e.mods, [e.declarator false], key'))
+    | _, _, some key' => flush ++ groupEntries es (some (declAttrs e, some key'.1, e.mods, [e.declarator false], key'))
     | _, _, none =>
       flush ++ (match e.decl with
         | .other => [RootItem.other e.name]
         | .cbuffer _ => [RootItem.cbuffer e.name (declAttrs e) (ownAnns e false)]
         -- a global that is not an object (`static const int x`)
-        | .global _ _ _ _ => [RootItem.globals (declAttrs e) none false [e.declarator false]]) ++ groupEntries es none
+        | .global _ _ _ _ => [RootItem.globals (declAttrs e) none [.static] [e.declarator false]]) ++ groupEntries es none
 
 def regLetter : RegT → String | .T => "t" | .U => "u" | .S => "s" | .B => "b"
 
@@ -209,8 +240,11 @@ def showFrontErr : FrontErr → String
   | .unexpectedSemantic n => "err:decl:semantic:" ++ n
   | .staticSamplerUnexpectedBindingIndex n => "err:decl:static-sampler-index:" ++ n
   | .unexpectedPackOffset n => "err:other:packoffset:" ++ n
-  | .staticSamplerUnexpectedStorageClass n => "err:other:static sampler has unexpected storage class:" ++ n
-  | .cbufferBindless n => "err:other:unknown global variable attribute 'bindless':" ++ n
+  | .staticSamplerUnexpectedStorageClass n => "err:decl:static-sampler-storage:" ++ n
+  | .attributeArgumentCount l => "err:decl:attribute-count:" ++ l
+  | .attributeUnknown n => "err:decl:attribute-unknown:" ++ n
+  | .attributeNotConstant => "err:decl:attribute-not-constant:"
+  | .modifierConflict new _ => "err:decl:modifier-conflict:" ++ new
 
 def showMetaBinding (b : MetaBinding) : String :=
   b.name ++ "," ++ (match b.loc with | .index i => "i" ++ toString i | .inline o => "n" ++ toString o) ++ "," ++ toString b.count
